@@ -449,6 +449,8 @@ func (c *Cache) GetErrors() map[string][]error {
 	c.Lock()
 	defer c.Unlock()
 
+	_, _ = c.refreshIfRequired(false) // we record but ignore errors
+
 	errors := map[string][]error{}
 	for path, errs := range c.errors {
 		errors[path] = errs
